@@ -204,7 +204,7 @@ def ghost_names():
                 tree = ast.parse(open(os.path.join(spec_dir, fn)).read())
                 for n in tree.body:
                     if isinstance(n, ast.FunctionDef) and any(
-                            isinstance(d, ast.Name) and d.id == 'uninterpreted' for d in n.decorator_list):
+                            isinstance(d, ast.Name) and d.id == 'ghost' for d in n.decorator_list):
                         _GHOST.add(n.name)
     return _GHOST
 
@@ -476,6 +476,11 @@ def gen_value(ty, rnd, mod, fields_decl, depth=0):
                 except TypeError:
                     pass
             return d
+        if n == 'ObjSeq':
+            if depth > 2:
+                return []
+            return [gen_value(ast.Call(ast.Name('Obj'), ty.args, []), rnd, mod, fields_decl, depth + 1)
+                    for _ in range(rnd.randrange(3))]
         if n in ('Obj', 'Exc'):
             vals = [ast.literal_eval(a) for a in ty.args]
             if len(vals) == 2:
@@ -543,6 +548,8 @@ def gen_object(cls, rnd, fields_decl, depth=0):
             decl.update(fields_decl.get((class_relpath(c), c.__name__), {}))
     m = sys.modules[cls.__module__]
     for k, ty in decl.items():
+        if k.isupper() and hasattr(cls, k):
+            continue                 # class-level constant (ENCODING, TAG): keep the real one
         setattr(o, k, gen_value(ty, rnd, m, fields_decl, depth + 1))
     for c in reversed(cls.__mro__):
         if c.__module__.startswith('asn1tools'):
@@ -635,7 +642,13 @@ def run_crosscheck(repo_root, contracts_dir, idents, n, seed, time_limit=5, clas
         if not ok_:
             rep['not_cross_checked'] = why
             continue
-        for it in range(n):
+        examples = []
+        if 'examples' in c.native:
+            try:
+                examples = ast.literal_eval(c.native['examples'])
+            except Exception:
+                examples = []
+        for it in range(n + len(examples)):
             try:
                 args = {}
                 for p in sig_params:
@@ -647,6 +660,8 @@ def run_crosscheck(repo_root, contracts_dir, idents, n, seed, time_limit=5, clas
                         args['self'] = gen_object(cls, rnd, fields_decl)
                     elif p in c.params:
                         args[p] = gen_value(c.params[p], rnd, mod, fields_decl)
+                if it < len(examples):
+                    args.update(examples[it])        # hand-picked inputs from the sidecar (native(examples=[...]))
                 ghosts = {g: gen_value(t, rnd, mod, fields_decl) for g, t in c.ghosts.items()}
                 for g in c.param_order:
                     if g not in args and g != 'self' and g not in ghosts:
